@@ -288,7 +288,12 @@ func runResiduals(c *hlib.Ctx, n int) {
 				roots[j] = x
 				x += 0.6 + c.Rng.Float64()
 			}
-			p := numerical.Polynomial{1 + c.Rng.Float64()}
+			lead := 1 + c.Rng.Float64()
+			if c.Rng.Intn(2) == 0 {
+				lead = -lead
+				c.Stat("c17.resid.roots_negative_lead", 1)
+			}
+			p := numerical.Polynomial{lead}
 			for _, r := range roots {
 				p = p.Mul(numerical.Polynomial{-r, 1})
 			}
